@@ -21,7 +21,7 @@ pub enum Case {
     Pair { bk: Bk, r1: Recipe, r2: Recipe },
 }
 
-fn check_elem<B: Backend>(r: &Recipe, ctx: &mut Ctx) -> Result<(), Failure> {
+fn check_elem<B: Backend + crate::props::c03::Paths>(r: &Recipe, ctx: &mut Ctx) -> Result<(), Failure> {
     let c = &*CURVE;
     let m = r.model();
     let e = r.lib::<B>(&m);
@@ -48,6 +48,20 @@ fn check_elem<B: Backend>(r: &Recipe, ctx: &mut Ctx) -> Result<(), Failure> {
     let want = c.decode_int(&c.encode_spec(&m.pt)).expect("model round trip");
     if let Err(why) = judge::<B>(&back, &want) {
         ctx.report(format!("C01|{}|decode-of-encode-wrong-element", B::NAME), format!("decode(encode(E)): {why}"))?;
+    }
+    // whichever public route produced the 32 bytes (conversions, serialisers, Display), they decode back to E
+    for (name, bytes) in <B as crate::props::c03::Paths>::paths(&e) {
+        if bytes.len() != 32 {
+            continue;
+        }
+        ctx.sub_eval();
+        let mut arr = [0u8; 32];
+        arr.copy_from_slice(&bytes);
+        match B::decode(&arr) {
+            Ok(b2) if B::eq(&b2, &e) => {}
+            Ok(_) => ctx.report(format!("C01|{name}|decode-of-encode-not-equal"), format!("the bytes {} produced by {name} decode to a different element", hex::encode(arr)))?,
+            Err(err) => ctx.report(format!("C01|{name}|decode-of-encode-rejected"), format!("the bytes {} produced by {name} are rejected ({err:?})", hex::encode(arr)))?,
+        }
     }
     // re-encoding reproduces the bytes
     let enc2 = B::encode(&back);
